@@ -135,7 +135,7 @@ def gen_calendar():
     n = 0
     while lo <= JLAST:
         hi = min(lo + 999, JLAST)
-        cases.append(vlib.Case("cal%d" % n, "cal", ["D %d %d" % (lo, hi)], "calendar-exhaustive"))
+        cases.append(vlib.Case("cal%d" % n, "cal", ["D %d %d" % (lo, hi), "DI %d %d" % (lo, hi)], "calendar-exhaustive"))
         lo = hi + 1
         n += 1
     # outside the range too (not part of the property; correspondence of the generated functions only)
@@ -426,6 +426,21 @@ def gen_text(rng, n):
     cases = []
     for i in range(0, len(us), 400):
         cases.append(vlib.Case("ts%d" % (i // 400), "text", ["TS %d" % u for u in us[i:i + 400]], "timestamp-text"))
+    # Timestamp arithmetic: secondsSinceEpoch, fromUnixTime, addTime (double seconds), timeDifference
+    ta = []
+    secs_pool = ["0", "1", "-1", "0.5", "-2.5", "0.1", "0.000001", "1e-7", "3600", "86400.25", "1e9", "1000000000.000001", "-0.999999", "2.5e-6",
+                 "123456.789", "1e12"]
+    for i in range(n // 10):
+        u = rng.choice([0, 1, -1, 999999, 1000000, -999999, -1000000, rng.randrange(-10 ** 15, 10 ** 16), rng.randrange(0, UTC_END) * 10 ** 6 + rng.randrange(10 ** 6)])
+        t = rng.choice([0, 1, 2 ** 31 - 1, 2 ** 31, rng.randrange(0, 4 * 10 ** 9), rng.randrange(-10 ** 9, 0), rng.randrange(0, 9 * 10 ** 12)])
+        m = rng.choice([0, 1, 999999, rng.randrange(10 ** 6), rng.randrange(10 ** 6), -1, 1000000, rng.randrange(-10 ** 6, 2 * 10 ** 6)])
+        sec = rng.choice(secs_pool + [repr(rng.uniform(-1e6, 1e6)), repr(rng.uniform(0, 10)), str(rng.randrange(-10 ** 6, 10 ** 6))])
+        delta = int(float(sec) * 1000000.0)
+        hi = rng.randrange(-2 ** 49, 2 ** 49)
+        lo_ = rng.choice([0, hi, hi - 1, hi + 1, rng.randrange(-2 ** 49, 2 ** 49)])
+        ta.append("TA %d %d %d %s %d %d %d" % (u, t, m, sec, delta, hi, lo_))
+    for i in range(0, len(ta), 300):
+        cases.append(vlib.Case("ta%d" % (i // 300), "text", ta[i:i + 300], "timestamp-arith"))
     be = []
     for k in (2, 4, 8):
         m = 1 << (8 * k)
@@ -518,6 +533,27 @@ def gen_inet(rng, n4, n6):
     for b in ["::", "::1", "1::", ":::", "1:2:3:4:5:6:7", "1:2:3:4:5:6:7:8:9", "1::2::3", "12345::", "g::1", "::1.2.3", "::1.2.3.256",
               "1:2:3:4:5:6:7::8", "::ffff:1.2.3.4", "::1.2.3.4", "fe80::1%lo", "[::1]", "1:2:3:4:5:6:1.2.3.4", "::0:0", "0::0"]:
         ip_op(b, 8080, 0)
+    # the longest texts inet_ntop(AF_INET6) can print (38 / 39 characters) with 4- and 5-digit ports: the scratch
+    # buffer of InetAddress::toIpPort must hold '[' + 39 + "]:" + 5 digits + NUL
+    for text in ("ffff:ffff:ffff:ffff:ffff:ffff:ffff:ffff", "2001:db8:1111:2222:3333:4444:5555:6666", "1111:2222:3333:4444:5555:6666:7777:888",
+                 "fe80:1111:2222:3333:4444:5555:6666:7777", "::ffff:255.255.255.255", "0:0:0:0:0:ffff:255.255.255.255", "::255.255.255.255",
+                 "64:ff9b::255.255.255.255", "1111:2222:3333:4444:5555:6666:255.255.255.255"):
+        for pt in (65535, 10000, 9999, 999, 0):
+            ip_op(text, pt, 0)
+    # setScopeId: stored for IPv6 only, never printed
+    def ips_op(text, port, flag, scope):
+        p6 = n6t = "-"
+        try:
+            a = socket.inet_pton(socket.AF_INET6, text)
+            p6 = a.hex()
+            n6t = socket.inet_ntop(socket.AF_INET6, a).encode().hex()
+        except (OSError, ValueError):
+            if flag or ":" in text:
+                n6t = b"::".hex()
+        ops.append("IPS %s %d %d %d %s %s" % (text.encode().hex(), port, flag, scope, p6, n6t))
+    for text in ("fe80::1", "::1", "ffff:ffff:ffff:ffff:ffff:ffff:ffff:ffff", "::ffff:1.2.3.4", "1.2.3.4", "127.0.0.1", "fe80::1%lo"):
+        for scope in (0, 1, 2, 4294967295):
+            ips_op(text, rng.choice(PORTS), 0, scope)
     for p in PORTS:
         for lo in (0, 1):
             for v6 in (0, 1):
@@ -583,6 +619,22 @@ def oracle_case(c, lines, V, tables):
                     V.fail(c, oi, "day %d: muduo vs gmtime_r/timegm: %s vs %s" % (j, " ".join(f[2:]), " ".join(g)))
                     break
             continue
+        if k == "DI":
+            lo, hi = int(w[1]), int(w[2])
+            for j in range(lo, hi + 1):
+                if li >= len(lines):
+                    V.fail(c, oi, "missing output for day %d" % j)
+                    return
+                ln = lines[li]
+                li += 1
+                if kind != "cal":
+                    continue
+                dt = datetime.date.fromordinal(j - 1721425)
+                e = "DI %d %04d-%02d-%02d" % (j, dt.year, dt.month, dt.day)
+                if strip_side(ln) != e or side(ln) != e.split()[2]:
+                    V.fail(c, oi, "day %d: Date::toIsoString gives %r (strftime %r), expected %r" % (j, strip_side(ln)[3:], side(ln), e[3:]))
+                    break
+            continue
         if li >= len(lines):
             V.fail(c, oi, "missing output for %r" % op)
             return
@@ -590,6 +642,16 @@ def oracle_case(c, lines, V, tables):
         li += 1
         f = strip_side(ln).split()
         g = side(ln).split()
+        if k == "TA":
+            u, t, m, sec, delta, hi, lo_ = int(w[1]), int(w[2]), int(w[3]), w[4], int(w[5]), int(w[6]), int(w[7])
+            sse = abs(u) // 10 ** 6 * (1 if u >= 0 else -1)
+            exp = ["TA", str(sse), str(t * 10 ** 6 + m), str(u + int(float(sec) * 1000000.0)), str(hi - lo_)]
+            if f != exp:
+                V.fail(c, oi, "Timestamp arithmetic (secondsSinceEpoch(%d), fromUnixTime(%d, %d), addTime(%d, %s), timeDifference(%d, %d) in microseconds): got %s, expected %s"
+                       % (u, t, m, u, sec, hi, lo_, f[1:], exp[1:]))
+            elif g != ["%.17g" % (float(hi - lo_) / 1000000)]:
+                V.fail(c, oi, "timeDifference(%d, %d) = %s, IEEE double division gives %.17g" % (hi, lo_, g, float(hi - lo_) / 1000000))
+            continue
         if k == "U":
             t = int(w[1])
             exp = ["U", str(t)] + [str(x) for x in civil(t)] + [str(t)]
@@ -620,7 +682,7 @@ def oracle_case(c, lines, V, tables):
             sx = (x % m) - m if (x % m) >= m // 2 else (x % m)
             if f != ["BE", e.hex(), str(x % m), str(sx)] or g != [e.hex()]:
                 V.fail(c, oi, "hostToNetwork%d(%d): memory %s, back %s; big-endian is %s, htobe says %s" % (8 * kk, x, f[1], f[2:], e.hex(), g))
-        elif k in ("IP", "IPP"):
+        elif k in ("IP", "IPP", "IPS"):
             oracle_IP(c, oi, w, ln, V)
         elif k == "P4":
             text = bytes.fromhex(w[1]) if w[1] != "-" else b""
@@ -820,9 +882,12 @@ def oracle_TS(c, oi, us, ln, V):
 def oracle_IP(c, oi, w, ln, V):
     f = dict(x.split("=", 1) for x in strip_side(ln).split()[1:] if "=" in x)
     g = dict(x.split("=", 1) for x in side(ln).split() if "=" in x)
-    if w[0] == "IP":
+    scope = None
+    if w[0] in ("IP", "IPS"):
         text = (bytes.fromhex(w[1]) if w[1] != "-" else b"").decode("latin-1")
         port, flag = int(w[2]), w[3] == "1"
+        if w[0] == "IPS":
+            scope = int(w[4])
         v6 = flag or ":" in text
         if v6:
             try:
@@ -848,6 +913,8 @@ def oracle_IP(c, oi, w, ln, V):
         ip = ("::1" if lo else "::") if v6 else ("127.0.0.1" if lo else "0.0.0.0")
     exp = {"fam": "6" if v6 else "4", "addr": addr.hex(), "port": struct.pack(">H", port).hex(), "toIp": ip,
            "toIpPort": ("[%s]:%d" % (ip, port)) if v6 else "%s:%d" % (ip, port), "port()": str(port)}
+    if scope is not None:
+        exp["scope"] = str(scope) if v6 else "-"
     if f != exp:
         diff = [k for k in exp if f.get(k) != exp[k]]
         V.fail(c, oi, "InetAddress(%s): %s; expected %s" % (" ".join(w[1:4]), {k: f.get(k) for k in diff}, {k: exp[k] for k in diff}))
@@ -1040,9 +1107,13 @@ def run(chk, replay=None):
                 sigs.add(("R", c.tag, w[8], int(w[9]) == int(w[1]), int(w[10]) == int(w[1])))
             elif w[0] == "D":
                 sigs.add(("D", w[2], w[3]))
+            elif w[0] == "DI":
+                sigs.add(("DI", w[2][:7]))
+            elif w[0] == "TA":
+                sigs.add(("TA", l[:48]))
             elif w[0] == "U":
                 sigs.add(("U", w[2], w[3]))
-            elif w[0] in ("IP", "IPP", "P4", "F", "BE"):
+            elif w[0] in ("IP", "IPP", "IPS", "P4", "F", "BE"):
                 sigs.add((w[0], l[:40]))
             elif w[0].startswith("TS"):
                 sigs.add(("TS", len(l)))
@@ -1101,6 +1172,26 @@ def run(chk, replay=None):
         else:
             p = chk.write_replay("finding_%s.case" % key, replay_text(small, msg))
             chk.violation(p, "C20 finding (not yet listed in KNOWN_FINDINGS.txt, key=%s): %s" % (key, msg))
+    # An assert of SocketsOps.cc firing (or the buffer obligation C20_inet_buffers breaking) hides what a release
+    # build would print: run the address cases once more against an NDEBUG build and let the oracle read the text.
+    inet_crash = [c for c in cases if c.cid in crashes and c.tag in ("inet", "corpus") and any(o.startswith(("IP ", "IPS ", "IPP ")) for o in c.ops)]
+    if inet_crash or (not pr["ok"] and "inet_buffer" in str(pr["broken"])):
+        try:
+            impl_nd = vlib.build_driver("C20_driver_ndebug", ["C20_driver.cc"], variant="ndebug", extra_flags=DRIVER_FLAGS)
+            inet_cases = [c for c in cases if any(o.startswith(("IP ", "IPS ", "IPP ")) for o in c.ops)]
+            nd_out, nd_crash = vlib.run_batch_parallel(impl_nd, inet_cases, timeout=1200)
+            Vn = Verdicts()
+            for c in inet_cases:
+                if c.cid in nd_out:
+                    oracle_case(c, nd_out[c.cid], Vn, tables)
+            chk.cov["ndebug_address_probes_failing"] = len(Vn.bad)
+            for (c, oi, msg) in Vn.bad[:1]:
+                small = single_op_case(c, oi)
+                pth = chk.write_replay("ndebug_%s.case" % small.cid, replay_text(small, "NDEBUG build (asserts off): " + msg))
+                chk.violation(pth, "C20 fails on the implementation built with NDEBUG (the assert-enabled build aborts on the same input): %s (%d failing probes)"
+                              % (msg, len(Vn.bad)))
+        except Exception as e:  # noqa
+            chk.notes.append("NDEBUG re-run of the address cases not possible: %s" % str(e)[:300])
     coq_confirmed = False
     if not pr["ok"] and not replay:
         cex, cexlog = coq_counterexample()
